@@ -109,7 +109,8 @@ def gen_deliveries(rng, mode, idxs, entries, ndim, first_epoch, keep_missed):
             i += 1
         else:
             k = rng.randint(1, max(1, min(8, len(order) - i)))
-            out.append({"op": "fill_n", "idx": order[i:i + k], "cont": rng.choice(conts)})
+            out.append({"op": "fill_n", "idx": order[i:i + k], "cont": rng.choice(conts),
+                        "dropna": rng.random() < 0.8, "fold": rng.random() < 0.2})
             i += k
         if rng.random() < 0.08:
             out.append({"op": "fill_n", "idx": [], "cont": rng.choice(conts)})
@@ -416,6 +417,14 @@ def execute(plan, ctx):
             if ndim > 1 and not idxs:
                 data = np.zeros((ndim, 0) if cont == "columns" else (0, ndim))
             n_nan = sum(1 for i in idxs if is_nan_entry(entries[i]))
+            if op.get("dropna") is False and n_nan == 0:
+                kw["dropna"] = False  # valid: nothing to drop
+            if ndim == 1 and op.get("fold") and len(idxs) >= 4 and len(idxs) % 2 == 0 and cont in ("ndarray", "list"):
+                # a 1-D histogram accepts input of any shape (documented: it is flattened); weights share the shape
+                data = np.asarray(data, dtype=float).reshape(2, -1)
+                if weights is not None:
+                    kw["weights"] = np.asarray(weights).reshape(2, -1)
+                ctx.probe("fill_n_2d_shaped_input")
             if n_nan:
                 ctx.fault("nan_entry", n_nan)
             if not idxs:
